@@ -21,7 +21,10 @@ def kernel_job(job):
     from nuspacesim.simulation.eas_optical.cphotang import CphotAng
     rng = np.random.default_rng(job["seed"])
     c = CphotAng(525.0)
+    from drivers.c06 import kernels
+    c32, c64 = kernels(525.0)
     ev = []
+    between = []
     for _ in range(job["n"]):
         beta = float(np.radians(rng.uniform(1.0, 42.0)))
         alt = float(rng.uniform(0.0, 20.0))
@@ -43,7 +46,21 @@ def kernel_job(job):
                        "d0": bits(d0), "th0": bits(th0),
                        "_m": {"beta_deg": float(np.degrees(beta)), "alt": alt, "E": E, "top": float(top), "zs0": float(zs[0]),
                               "zsPen": float(zs[-2]), "d": float(d), "d0": float(d0)}})
-    return "kern", ev
+        # "in between": cloud tops half-way between two segment altitudes (unambiguous in single and double precision); the value is
+        # decided by Cherenkov.tla with its cloudTop input (TraceCherenkov)
+        for kk in sorted(set([1, int(0.15 * len(zs)), int(0.4 * len(zs)), int(0.65 * len(zs)), int(0.85 * len(zs)), int(rng.integers(1, len(zs) - 2))])):
+            if kk + 1 >= len(zs) - 1:
+                continue
+            top = 0.5 * (zs[kk] + zs[kk + 1])
+            with np.errstate(all="ignore"):
+                d32, a32 = c32.run(beta, alt, E, 0.1, 0.2, lambda la, lo, _t=top: np.float64(_t))
+                d64, a64 = c64.run(beta, alt, E, 0.1, 0.2, lambda la, lo, _t=top: np.float64(_t))
+            between.append({"kind": "k", "beta": bits(beta), "alt": bits(alt), "E100": bits(E), "top": bits(top), "zdet": bits(525.0),
+                            "d32": bits(d32), "a32": bits(a32), "has64": c64.dtype == np.float64, "d64": bits(d64), "a64": bits(a64),
+                            "clamped": False, "scale": bits(float(d0)), "d32ref": bits(d32), "a32ref": bits(a32),
+                            "_m": {"beta_deg": float(np.degrees(beta)), "alt": alt, "E100": E, "top": float(top), "d32": float(d32), "d64": float(d64),
+                                   "d_cloud_free": float(d0), "segments_below_top": int(kk + 1), "segments": int(len(zs))}})
+    return "kern", ev + between
 
 
 def _sphere(rng, n):
@@ -118,7 +135,14 @@ def run(tier="quick", seed=0):
     jobs += [{"t": "model", "month": 0, "seed": seed, "n": 200}]
     jobs += [{"t": "model", "month": m, "seed": seed + m, "n": 3000 if thorough else 500} for m in months]
     res = par.pmap(_dispatch, jobs, workers=14)
-    kern = [e for k, evs in res if k in ("kern", "const") for e in evs]
+    kern = [e for k, evs in res if k in ("kern", "const") for e in evs if e["kind"] != "k"]
+    between = [e for k, evs in res if k == "kern" for e in evs if e["kind"] == "k"]
+    if not thorough:
+        pick = np.random.default_rng(seed).permutation(len(between))[:30]
+        between = [between[i] for i in sorted(pick)]
+    between.sort(key=lambda e: e["_m"]["beta_deg"])
+    pr.validate("TraceCherenkov", None, name="cloud-in-between", groups=[between[i::12] for i in range(12)], silent_steps=True, timeout=3000,
+                heap="2g")
     pr.validate("TraceClouds", kern, name="kernel-regimes+constant-models", chunks=4, env={"ATM_FILE": atm, "MAP_FILE": maps[months[0]]}, heap="4g")
     for m in months:
         ev = [e for k, evs in res if k == m for e in evs]
@@ -129,13 +153,13 @@ def run(tier="quick", seed=0):
             t, a, b = e["_m"]["top"], e["_m"]["zs0"], e["_m"]["zsPen"]
             r = "below" if t <= a else ("above" if t > b else "between")
             reg[r] = reg.get(r, 0) + 1
-    pr.note(kernel_regimes=reg, months=months)
+    pr.note(kernel_regimes=reg, months=months, in_between_events_against_cherenkov_model=len(between))
     return pr.finish(
         rule="kernel events with cloud tops at -inf, first segment -ulp / exact / +ulp, an inner segment, penultimate segment exact / +ulp, "
              "last segment, +inf; constant models on a lattice of the sphere; monthly maps on random + special points (poles, +-180 deg, "
              "cell edges, longitudes in [pi, 2 pi)) and on ground positions produced by the geometry stage; distinct = distinct events",
-        assumptions=["the 'in between' regime is only checked for finiteness / sign here; its value is decided by Cherenkov.tla (C06) with the "
-                     "cloudTop input", "any corner of the containing map cell is a conforming lookup"],
+        assumptions=["the 'in between' regime is decided by Cherenkov.tla with its cloudTop input, on cloud tops placed half-way between two segment "
+                     "altitudes (boundary-exact tops are decided by the regime clauses)", "any corner of the containing map cell is a conforming lookup"],
         trusted=["TLC + Float64 override", "astropy.io.fits"])
 
 
